@@ -210,7 +210,14 @@ class HttpProxyPlugin(HttpProtocolHandlerPlugin):
                 logger.warning(
                     'BrokenPipeError when flushing buffer for server',
                 )
-                return self._close_and_release()
+                if self.flags.enable_conn_pool:
+                    return self._close_and_release()
+                # Server takes nothing from us anymore, but what it sent
+                # before going away may not have been read yet.  Drop what
+                # can no longer be delivered, read path finds the end of
+                # its stream and tears down.
+                self.upstream.discard_buffer()
+                return False
             except OSError as e:
                 logger.exception(
                     'OSError when flushing buffer to server', exc_info=e,
